@@ -59,13 +59,17 @@ type Event struct {
 	Ack      []byte
 	Relayer  string
 	Reverted bool // the carrying transaction failed: nothing of this callback persisted
+	CheckTx  bool // the callback ran in CheckTx/ReCheckTx mode (mempool check state, never committed)
 }
 
 // Step is incremented by properties to tag log entries with the history step.
 var _ = fmt.Sprint
 
-func (w *World) logEvent(e Event) {
+func (w *World) logEvent(ctx sdk.Context, e Event) {
 	e.Step = w.StepNo
+	if ctx.IsCheckTx() || ctx.IsReCheckTx() {
+		e.CheckTx, e.Reverted = true, true
+	}
 	w.Log = append(w.Log, e)
 }
 
@@ -107,7 +111,7 @@ func (w *World) installApps(i int) {
 	// ---- v1 mock application (port "mock")
 	m := app.IBCMockModule.IBCApp
 	m.OnRecvPacket = func(ctx sdk.Context, _ string, p channeltypes.Packet, relayer sdk.AccAddress) exported.Acknowledgement {
-		w.logEvent(Event{Chain: chain, Kind: "recv", Port: p.DestinationPort, ID: p.DestinationChannel, Seq: p.Sequence, Data: p.Data, Relayer: relayer.String()})
+		w.logEvent(ctx, Event{Chain: chain, Kind: "recv", Port: p.DestinationPort, ID: p.DestinationChannel, Seq: p.Sequence, Data: p.Data, Relayer: relayer.String()})
 		s, ok := ParseScript(p.Data)
 		if !ok {
 			return ErrAck()
@@ -125,7 +129,7 @@ func (w *World) installApps(i int) {
 		}
 	}
 	m.OnAcknowledgementPacket = func(ctx sdk.Context, _ string, p channeltypes.Packet, ack []byte, relayer sdk.AccAddress) error {
-		w.logEvent(Event{Chain: chain, Kind: "ack", Port: p.SourcePort, ID: p.SourceChannel, Seq: p.Sequence, Data: p.Data, Ack: ack, Relayer: relayer.String()})
+		w.logEvent(ctx, Event{Chain: chain, Kind: "ack", Port: p.SourcePort, ID: p.SourceChannel, Seq: p.Sequence, Data: p.Data, Ack: ack, Relayer: relayer.String()})
 		if s, ok := ParseScript(p.Data); ok {
 			switch s.Ack {
 			case "err":
@@ -137,7 +141,7 @@ func (w *World) installApps(i int) {
 		return nil
 	}
 	m.OnTimeoutPacket = func(ctx sdk.Context, _ string, p channeltypes.Packet, relayer sdk.AccAddress) error {
-		w.logEvent(Event{Chain: chain, Kind: "timeout", Port: p.SourcePort, ID: p.SourceChannel, Seq: p.Sequence, Data: p.Data, Relayer: relayer.String()})
+		w.logEvent(ctx, Event{Chain: chain, Kind: "timeout", Port: p.SourcePort, ID: p.SourceChannel, Seq: p.Sequence, Data: p.Data, Relayer: relayer.String()})
 		if s, ok := ParseScript(p.Data); ok {
 			switch s.TO {
 			case "err":
@@ -159,11 +163,11 @@ func (w *World) installApps(i int) {
 			a = app.MockModuleV2B.IBCApp
 		}
 		a.OnSendPacket = func(ctx sdk.Context, src, dst string, seq uint64, pl channeltypesv2.Payload, signer sdk.AccAddress) error {
-			w.logEvent(Event{Chain: chain, Kind: "send", V2: true, Port: port, ID: src, Seq: seq, Data: pl.Value, Relayer: signer.String()})
+			w.logEvent(ctx, Event{Chain: chain, Kind: "send", V2: true, Port: port, ID: src, Seq: seq, Data: pl.Value, Relayer: signer.String()})
 			return nil
 		}
 		a.OnRecvPacket = func(ctx sdk.Context, src, dst string, seq uint64, pl channeltypesv2.Payload, relayer sdk.AccAddress) channeltypesv2.RecvPacketResult {
-			w.logEvent(Event{Chain: chain, Kind: "recv", V2: true, Port: port, ID: dst, Seq: seq, Data: pl.Value, Relayer: relayer.String()})
+			w.logEvent(ctx, Event{Chain: chain, Kind: "recv", V2: true, Port: port, ID: dst, Seq: seq, Data: pl.Value, Relayer: relayer.String()})
 			s, ok := ParseScript(pl.Value)
 			if !ok {
 				return channeltypesv2.RecvPacketResult{Status: channeltypesv2.PacketStatus_Failure}
@@ -183,14 +187,14 @@ func (w *World) installApps(i int) {
 			}
 		}
 		a.OnAcknowledgementPacket = func(ctx sdk.Context, src, dst string, seq uint64, pl channeltypesv2.Payload, ack []byte, relayer sdk.AccAddress) error {
-			w.logEvent(Event{Chain: chain, Kind: "ack", V2: true, Port: port, ID: src, Seq: seq, Data: pl.Value, Ack: ack, Relayer: relayer.String()})
+			w.logEvent(ctx, Event{Chain: chain, Kind: "ack", V2: true, Port: port, ID: src, Seq: seq, Data: pl.Value, Ack: ack, Relayer: relayer.String()})
 			if s, ok := ParseScript(pl.Value); ok && s.Ack == "err" {
 				return errors.New("scripted ack callback error")
 			}
 			return nil
 		}
 		a.OnTimeoutPacket = func(ctx sdk.Context, src, dst string, seq uint64, pl channeltypesv2.Payload, relayer sdk.AccAddress) error {
-			w.logEvent(Event{Chain: chain, Kind: "timeout", V2: true, Port: port, ID: src, Seq: seq, Data: pl.Value, Relayer: relayer.String()})
+			w.logEvent(ctx, Event{Chain: chain, Kind: "timeout", V2: true, Port: port, ID: src, Seq: seq, Data: pl.Value, Relayer: relayer.String()})
 			if s, ok := ParseScript(pl.Value); ok && s.TO == "err" {
 				return errors.New("scripted timeout callback error")
 			}
